@@ -256,8 +256,12 @@ class TemplateLookup(TemplateCollection):
         """Adjust the given ``uri`` based on the given relative URI."""
 
         key = (uri, relativeto)
-        if key in self._uri_cache:
+        # one step: on a bounded lookup another thread may evict the
+        # entry between a membership test and the read
+        try:
             return self._uri_cache[key]
+        except KeyError:
+            pass
 
         if uri[:1] == "/":
             v = self._uri_cache[key] = uri
